@@ -51,9 +51,9 @@ def allowed(toks):
         return remm.allowed_checked_panics(toks)
     if op == "round":
         return roundm.allowed_checked_panics(toks)
-    if op in ("fi", "fb", "ff"):
+    if op in ("fi", "fb", "ff", "zi", "zb", "zf"):
         return conv.allowed_checked_panics(toks)
-    if op == "fl":
+    if op in ("fl", "zl"):
         return fltm.allowed_checked_panics(toks)
     if op in TRANS_OPS:
         return transm.allowed_checked_panics(toks)
